@@ -17,7 +17,7 @@
    (3) The barrier's inner mutex is free and has no queued listener between polls; no unreachable branch. *)
 From AL Require Import Base Api Mutex BarrierApi BarrierInv.
 From AL.Tie Require Tie_Barrier Tie_Mutex.
-From AL.Sched Require BarrierEvSched BarrierEvInv BarrierEvOrd.
+From AL.Sched Require BarrierEvSched BarrierEvInv BarrierEvOrd MutexEvSched BarrierComp.
 
 Theorem C09_refines : forall (n : N) (ops : list bop), n < USZ -> N.of_nat (length ops) < BAR_BOUND ->
   map o_res (btrace (bw_init n) ops) = atrace n a_init ops /\ abs (brun n ops) = arun n ops /\ BInv (brun n ops).
@@ -64,6 +64,33 @@ Proof. rewrite BarrierEvOrd.bar_ln_premise. exact BarrierEvInv.barrier_sched_no_
 Theorem C09_sched_no_notify_refuted : BarrierEvSched.lostb (BarrierEvSched.run false 3 3 BarrierEvSched.trio_schedule) = true.
 Proof. exact BarrierEvInv.barrier_sched_no_notify_refuted. Qed.
 
+(* ---------- the barrier's machine TOGETHER WITH the machine of its state mutex (Sched/BarrierComp.v) ---------- *)
+(* In C09_sched a critical section of the state mutex is one atomic action and a wait() queued on that mutex is "inside a
+   poll". In the product the lock futures of the wait()s run on the Mutex machine of C05; a critical section runs only while
+   a lock future holds the mutex, and then owes the unlock. For every composed schedule (shorter than 2^64 - 1 actions):
+   nobody holds the mutex or owes its unlock, the mutex side is at rest, every wait() is at rest — a wait() that needs the
+   state mutex counting as at rest only if a lock future is parked on it (what its Pending means) — ==> no lock future is
+   parked, no wait() is stuck before a critical section, and no wait() of a finished generation waits. *)
+Theorem C09_sched_with_mutex : forall (p : N) (nb nm : nat) (sched : list BarrierComp.yact),
+  let s := BarrierComp.yrun p nb nm sched in
+  N.of_nat (length sched) <= BarrierEvSched.NMAX ->
+  BarrierComp.y_hold s = 0 -> BarrierComp.y_owe s = 0 -> MutexEvSched.quiescentb (BarrierComp.yM s) = true ->
+  (forall f, In f (BarrierEvSched.g_futs (BarrierComp.yB s)) -> BarrierComp.comp_at_rest s f) ->
+  existsb MutexEvSched.parked (MutexEvSched.g_futs (BarrierComp.yM s)) = false /\
+  BarrierEvSched.quiescentb (BarrierComp.yB s) = true /\
+  existsb (BarrierEvSched.stale (BarrierComp.yB s)) (BarrierEvSched.g_futs (BarrierComp.yB s)) = false.
+Proof. exact BarrierComp.barrier_comp_no_lost_wakeup. Qed.
+Example C09_sched_with_mutex_nonvacuous :
+  let mid := BarrierComp.yrun 2 2 3 (firstn 11 BarrierComp.bcomp_schedule) in
+  let fin := BarrierComp.yrun 2 2 3 BarrierComp.bcomp_schedule in
+  (map BarrierEvSched.fpc (BarrierEvSched.g_futs (BarrierComp.yB mid)) = [BarrierEvSched.BParked; BarrierEvSched.BArrive] /\
+   map MutexEvSched.fpc (MutexEvSched.g_futs (BarrierComp.yM mid)) = [MutexEvSched.PDone; MutexEvSched.PParked; MutexEvSched.PIdle] /\ BarrierComp.y_owe mid = 1) /\
+  (map BarrierEvSched.fpc (BarrierEvSched.g_futs (BarrierComp.yB fin)) = [BarrierEvSched.BDone; BarrierEvSched.BDone] /\
+   map BarrierEvSched.flead (BarrierEvSched.g_futs (BarrierComp.yB fin)) = [false; true] /\
+   BarrierComp.y_hold fin = 0 /\ BarrierComp.y_owe fin = 0 /\ MutexEvSched.g_w (BarrierComp.yM fin) = 0 /\
+   MutexEvSched.quiescentb (BarrierComp.yM fin) = true /\ BarrierEvSched.quiescentb (BarrierComp.yB fin) = true).
+Proof. exact BarrierComp.bcomp_example. Qed.
+
 Print Assumptions C09_refines.
 Print Assumptions C09_released_complete.
 Print Assumptions C09_spec_sane.
@@ -71,3 +98,4 @@ Print Assumptions C09_mutex_free.
 Print Assumptions C09_no_error.
 Print Assumptions C09_sched.
 Print Assumptions C09_sched_no_notify_refuted.
+Print Assumptions C09_sched_with_mutex.
